@@ -57,7 +57,7 @@ def run(res, proofs_ok, proofs_why):
         res.violation({"property": "C13", "kind": "obligation", "obligation": proofs_why}, found_input=False)
 
 
-def refid_part(res):
+def refid_part(res, pid="C13"):
     """the value parser of --phc-ref-id (refid_to_u32) against Cli.refid_of: strings of 0..6 bytes,
     ASCII and not; oracle: a four-character ASCII name is the big-endian number of its bytes"""
     import random
@@ -90,10 +90,10 @@ def refid_part(res):
             bad.append({"case": ln, "string": repr(nm), "impl": i, "why": ["a name that is not at most four ASCII characters must be refused"]})
     res.oblige("correspondence:refid_to_u32 vs Cli.refid_of", not diffs)
     if bad:
-        res.violation({"property": "C13", "kind": "input", "case": bad[0], "others": [b["case"] for b in bad[1:4]],
-                       "predicate": "configured reference id = big-endian number of the name's four ASCII bytes"})
+        res.violation({"property": pid, "kind": "input", "case": bad[0], "others": [b["case"] for b in bad[1:4]],
+                       "predicate": "configured reference id = big-endian number of the name's four ASCII bytes", "how_to_replay": "./check C13 --replay <this file>"})
     elif diffs:
-        res.violation({"property": "C13", "kind": "obligation", "obligation": "correspondence:refid_to_u32 vs Cli.refid_of", "first_differences": diffs[:3]}, found_input=False)
+        res.violation({"property": pid, "kind": "obligation", "obligation": "correspondence:refid_to_u32 vs Cli.refid_of", "first_differences": diffs[:3]}, found_input=False)
 
 
 def replay(res, path):
